@@ -27,7 +27,7 @@ func Low(t *rapid.T, label string) uint64 {
 
 var exactCards = []int{1, 2, 4095, 4096, 4097, 4098, 8191, 8192, 65535, 65536}
 
-const NShapes = 12
+const NShapes = 13
 
 // ChunkContent draws the content of one chunk as a normalized interval list
 // inside 0..65535 (never empty) together with the name of the shape used.
@@ -185,6 +185,19 @@ func chunkShape(t *rapid.T, label string, shape int, depth int) ([]model.Iv, str
 			}
 			s.AddRange(c, d)
 		}
+	case 12: // a long run plus many isolated values elsewhere (run-efficient only because of the long run)
+		name = "longrun+sparse"
+		a := uint64(rapid.IntRange(0, 30000).Draw(t, label+".runstart"))
+		l := uint64(rapid.IntRange(3000, 20000).Draw(t, label+".runlen"))
+		s.AddRange(a, a+l-1)
+		step := uint64(rapid.IntRange(2, 9).Draw(t, label+".step"))
+		cnt := rapid.IntRange(100, 2000).Draw(t, label+".count")
+		base := a + l + uint64(rapid.IntRange(1, 3000).Draw(t, label+".gap"))
+		vs := make([]uint64, 0, cnt)
+		for i, v := 0, base; i < cnt && v <= 65535; i, v = i+1, v+step {
+			vs = append(vs, v)
+		}
+		s = model.Or(s, model.FromValues(vs))
 	}
 	if s.IsEmpty() {
 		s.Add(Low(t, label+".fallback"))
